@@ -412,6 +412,33 @@ def dict_key(I, d, key):
                     r = I.call(BoundMethod(m, key), [k], {})
                     if r is True or r is sp.true:
                         return k
+    elif isinstance(key, tuple) and key not in d:
+        # a tuple key holding objects whose class defines equality: equal tuples are one key
+        def has_eq(x):
+            return (isinstance(x, SymObj) and x.cls is not None and x.cls.lookup("__eq__") is not _MISSING) \
+                or (isinstance(x, tuple) and any(has_eq(y) for y in x))
+
+        def same(x, y):
+            if isinstance(x, tuple) and isinstance(y, tuple):
+                return len(x) == len(y) and all(same(a_, b_) for a_, b_ in zip(x, y))
+            if isinstance(x, SymObj) and isinstance(y, SymObj) and x.cls is not None and x.cls is y.cls:
+                if x is y:
+                    return True
+                m_ = x.cls.lookup("__eq__")
+                if m_ is _MISSING:
+                    return False
+                r_ = I.call(BoundMethod(m_, x), [y], {})
+                return r_ is True or r_ is sp.true
+            if isinstance(x, SymObj) or isinstance(y, SymObj):
+                return x is y
+            try:
+                return bool(x == y)
+            except TypeError:
+                return False
+        if has_eq(key):
+            for k in d:
+                if isinstance(k, tuple) and same(key, k):
+                    return k
     return key
 
 
